@@ -240,6 +240,21 @@ def structured(rng, n=8):
     return n, gates
 
 
+def deep_brickwork(rng, n=8, layers=16):
+    """wide AND deep: the middle bonds reach dimension >= 8, so the local Krylov steps leave the small dense path
+    (tdvp.DENSE_THRESHOLD = 128 entries) and the window margins see complex, non-symmetric environments"""
+    gates = []
+    for layer in range(layers):
+        for q in range(n):
+            nm = str(rng.choice(["ry", "rz", "rx", "h", "u"]))
+            gates.append((nm, [q], [float(x) for x in rng.uniform(0.3, 2.8, size=NPAR.get(nm, 0))]))
+        for q in range(layer % 2, n - 1, 2):
+            nm = str(rng.choice(G2))
+            qs = [q, q + 1] if rng.random() < 0.5 else [q + 1, q]
+            gates.append((nm, qs, [float(x) for x in rng.uniform(0.4, 2.0, size=NPAR.get(nm, 0))]))
+    return n, gates
+
+
 STATES = ["zeros", "ones", "x+", "x-", "y+", "y-", "Neel", "wall", "basis"]
 
 
@@ -262,6 +277,10 @@ def search(ctx):
     for k in range(ctx.scale(2, 20)):
         n, gates = structured(ctx.rng, n=8)
         plan.append(dict(n=n, gates=gates, state="zeros", num_traj=int(ctx.rng.choice([1, 7]))))
+    for k in range(ctx.scale(1, 6)):
+        n, gates = deep_brickwork(ctx.rng, n=8 if k % 2 == 0 else 9, layers=int(ctx.rng.integers(14, 19)))
+        plan.append(dict(n=n, gates=gates, state=str(ctx.rng.choice(["zeros", "y+", "x-"])), num_traj=1, deep=True))
+        ctx.count("deep_wide_circuits")
     for k in range(ctx.scale(22, 400)):
         n, gates = gen(ctx.rng, n=int(ctx.rng.integers(2, 5 if ctx.quick else 6)), m=int(ctx.rng.integers(2, 11)))
         st = STATES[k % len(STATES)]
